@@ -729,6 +729,18 @@ func stress(args []string) {
 			if want[got.FunctionName] != got.Fingerprint+"|"+fmt.Sprintf("%x", h[:12]) {
 				res.Violate("nondeterministic/pool-history", fmt.Sprintf("%s: %s fingerprinted right after %s differs from the golden observation", rel, got.FunctionName, other.Name()), map[string]any{"file": rel, "function": got.FunctionName, "previous": other.Name()})
 			}
+			// the zero-value policy is an argument like any other: the same function analysed
+			// with it right after a default-policy and right after a keep-all analysis of an
+			// unrelated function gives the same result
+			var zero ir.LiteralPolicy
+			za := diff.GenerateFingerprint(target.GetSSAFunction(), zero, false)
+			diff.GenerateFingerprint(other, ir.KeepAllLiteralsPolicy, false)
+			zb := diff.GenerateFingerprint(target.GetSSAFunction(), zero, false)
+			acq += 3
+			res.Eval(1)
+			if za.Fingerprint != zb.Fingerprint || za.CanonicalIR != zb.CanonicalIR {
+				res.Violate("nondeterministic/pool-history/zero-value-policy", fmt.Sprintf("%s: %s analysed twice with the zero-value literal policy gives %s after a default-policy analysis and %s after a keep-all analysis of %s", rel, za.FunctionName, za.Fingerprint[:min(12, len(za.Fingerprint))], zb.Fingerprint[:min(12, len(zb.Fingerprint))], other.Name()), map[string]any{"file": rel, "function": za.FunctionName, "previous": other.Name()})
+			}
 		}
 		made := int(ir.VerifPoolConstructions() - before)
 		res.Count("pool_acquisitions", acq)
